@@ -331,10 +331,12 @@ pub fn run_c13(tier: Tier) -> i32 {
     let mut nontrivial = 0u64;
     let mut found: std::collections::BTreeMap<String, (u32, Vec<Ev>, String)> = Default::default();
     let mut levels_doc = vec![];
-    let mut completed_depth = [0usize; 2];
+    let mut completed_depth = [0usize; 3];
     let mut samples = vec![];
     let mut cut = false;
-    for (ni, n) in [1u32, 2].iter().enumerate() {
+    // n = 1, 2 to the full depth; the largest limit ("no limit" in practice) to depth - 3
+    for (ni, n) in [1u32, 2, u32::MAX].iter().enumerate() {
+        let depth = if *n == u32::MAX { depth - 3 } else { depth };
         let mut frontier: Vec<Vec<Ev>> = vec![vec![]];
         for d in 0..=depth {
             if start.elapsed() > cap {
@@ -458,7 +460,7 @@ pub fn run_c13(tier: Tier) -> i32 {
             "rule": "breadth-first over ALL event histories up to the depth (alphabet: Arrive(key a), Arrive(key b) - two keys that are unequal but hash alike -, Poll of the limited stream, Close(i) of a held channel, CloseNested(i) = close with one listener poll at the yield point inside the tracker's drop, HangUp(i) = the peer of held channel i ends its stream and the application polls the channel once without dropping it); every history is replayed from scratch on a fresh real MaxChannelsPerKey and compared with a per-key counter at every dequeue; `states` counts distinct (alive multiset, pending arrivals, shed count) fingerprints, no merging is used to prune; non-trivial = a close adjacent to a poll/arrival or a nested poll that fired",
             "samples": samples,
             "exhaustive": !cut && machinery.is_empty(),
-            "depth_completed": {"n1": completed_depth[0], "n2": completed_depth[1]},
+            "depth_completed": {"n1": completed_depth[0], "n2": completed_depth[1], "n_u32_max": completed_depth[2]},
             "depth_target": depth,
             "levels": levels_doc,
             "known_findings_seen": known_seen,
